@@ -598,7 +598,7 @@ def c07(chk, P):
                    f'at the return on line(s) {sorted({F.loc(x) for x in es})} vf->pcm_offset may hold a value of frame {sorted(fs)} '
                    '(Gs = raw granule position, Rl:L = relative to link L, "!a+b" = ill-typed sum): on some path the initial granule '
                    'offset of the link is not subtracted, or the lengths of the earlier links are not added')
-    chk.floor('R07.5', 5)
+    chk.floor('R07.5', 4)
 
 
 def c08(chk, P):
